@@ -214,11 +214,12 @@ def d3(chk, prog):
     fi = prog.fn("cnvlib.reports.get_breakpoints")
     tb = Table(chk, "breakpoint-predicate", "get_breakpoints over the order positions of the segment end among a gene's bin starts", fi.loc(), fi.qn)
     gst, gend = [10, 20, 30], 40
-    for ce, mp, same_chrom in itertools.product([5, 10, 15, 20, 25, 30, 35, 40, 45], [1, 2], [True, False]):
+    for ce, mp, same_chrom, gap in itertools.product([5, 10, 15, 20, 25, 30, 35, 40, 45], [1, 2], [True, False], [0, 12]):
         W.reset()
         it = Interp(prog)
         l0, l1 = Term.sym("l0"), Term.sym("l1")
-        segs = [Row({"chromosome": "chr1", "start": 0, "end": ce, "log2": l0}), Row({"chromosome": "chr1" if same_chrom else "chr2", "start": ce, "end": 100, "log2": l1})]
+        # `gap`: the next segment starts later than this one ends (bins in between were excluded before segmentation)
+        segs = [Row({"chromosome": "chr1", "start": 0, "end": ce, "log2": l0}), Row({"chromosome": "chr1" if same_chrom else "chr2", "start": ce + gap, "end": 100, "log2": l1})]
         intervals = {"chr1": [("G", list(gst), gend)], "chr2": []}
         out = tb.guard(lambda: it.run(fi.qn, [intervals, segs, mp]), f"end={ce} min_probes={mp}")
         if out is None:
@@ -229,7 +230,7 @@ def d3(chk, prog):
         if ok and want:
             r = out[0]
             ok = r[0] == "G" and r[1] == "chr1" and same(r[2], ce) and same(r[3], t_sub(l1, l0)) and r[4] == left and r[5] == right
-        tb.cell(ok, dict(segment_end=ce, gene_starts=gst, gene_end=gend, min_probes=mp, same_chromosome=same_chrom, got=[repr(x) for x in out], want_reported=want))
+        tb.cell(ok, dict(segment_end=ce, next_segment_start=ce + gap, gene_starts=gst, gene_end=gend, min_probes=mp, same_chromosome=same_chrom, got=[repr(x) for x in out], want_reported=want))
     tb.done("breaks lists a gene that has too few bins on one side of the boundary, or misses one that has enough")
     # do_genemetrics: min_probes filter is >=
     fg = prog.fn("cnvlib.reports.do_genemetrics")
